@@ -1864,6 +1864,18 @@ def _r4_follow(ctx, rid, f, st, r, must_raise, depth=0, starts=None):
     return None
 
 
+def _hands_selection_back(cfg, st, call) -> bool:
+    """the look-up result itself (possibly copied, possibly as a tuple element) is returned by the function"""
+    if isinstance(st, ast.Return):
+        return st.value is not None and _result_position(st.value, lambda e: _through_copies(e) is call) is not None
+    if isinstance(st, ast.Assign) and _through_copies(st.value) is call and len(st.targets) == 1 and isinstance(st.targets[0], ast.Name):
+        r = st.targets[0].id
+        return any(isinstance(x, ast.Return) and x.value is not None
+                   and _result_position(x.value, lambda e: isinstance(_through_copies(e), ast.Name) and _through_copies(e).id == r) is not None
+                   for x in cfg.stmts())
+    return False
+
+
 def r4_empty_selection_reported(ctx, rid):
     gn = ctx.repo.get_func(CIRCUIT_T, "CircuitTemplate.get_nodes")
     n = 0
@@ -1901,11 +1913,6 @@ def r4_empty_selection_reported(ctx, rid):
             ctx.info(rid, f, stmt_of(ctx.cfg(f), call), "look-up made while composing the message of an exception that is raised "
                                                         "regardless of its result: nothing can be silently dropped here")
             continue
-        if _is_private(f) and ctx.cg.call_sites_of(f) and _effect_free(ctx, f):
-            ctx.info(rid, f, stmt_of(ctx.cfg(f), call), f"read-only helper: {f.qualname} changes nothing (no store, no mutating call on its arguments, "
-                                                        f"module state or anything reachable from them), so it cannot apply or drop an input / "
-                                                        f"update; it only answers its caller")
-            continue
         qs = _only_called_from(ctx, f, R4_QUERIES)
         if qs:
             ctx.info(rid, f, stmt_of(ctx.cfg(f), call), f"look-up extracted from the quer{'y' if len(qs) == 1 else 'ies'} {', '.join(sorted(qs))}: "
@@ -1916,6 +1923,12 @@ def r4_empty_selection_reported(ctx, rid):
         # a look-up extracted from a must-raise function into a private helper inherits the requirement and counts once per use
         uses = [] if f.qualname in R4_MUST_RAISE else _context_call_sites(ctx, f, R4_MUST_RAISE)
         must_raise = f.qualname in R4_MUST_RAISE or bool(uses)
+        # a private helper without any effect that does not hand the selection itself back (that case is followed into the callers)
+        # and serves no must-raise function is a read-only query
+        if not must_raise and _is_private(f) and ctx.cg.call_sites_of(f) and not _hands_selection_back(cfg, st, call) and _effect_free(ctx, f):
+            ctx.info(rid, f, st, f"read-only helper: {f.qualname} changes nothing (no store, no mutating call on its arguments, module state or "
+                                 f"anything reachable from them), so it cannot apply or drop an input / update; it only answers its caller")
+            continue
         n += 1
         if isinstance(st, ast.Return) and st.value is not None and _result_position(st.value, lambda e: e is call) is not None:
             r = "<returned>"
